@@ -1,1 +1,2 @@
+import Neutrino.Props.C12
 import Neutrino.Props.C16
